@@ -142,6 +142,7 @@ func genEdgeScenario(t *rapid.T) *Scenario {
 		sc.BaseRepr = genEdgeRepr(t)
 	}
 	sc.Loads = rapid.SliceOfN(rapid.Custom(genEdgeLoad), 1, 10).Draw(t, "loads")
+	sc.Unset = genUnset(t)
 	return sc
 }
 
